@@ -8,7 +8,7 @@ CONSTANTS
   MaxEd = 1
   MaxVal = 1
   MaxObjs = 7
-  MaxEvents = 6
+  MaxEvents = 5
   KF_DefaultsNotHashed = FALSE
   KF_AdoptCached = FALSE
   KF_AliasBlind = FALSE
